@@ -32,8 +32,7 @@ returns on the first `Err`). Read from quick-xml's sources:
   when the iteration reaches it: the parser's `a?` turns it into `Err(Parse)`. The model encodes
   "syntax error here" as the attribute `([], [])` (`Jacoco.isAttrErr`): an empty key cannot come
   from a real attribute (a key has at least one byte), and `getAttrAux`/`lineAttrs` answer `Parse`
-  when they reach it; nothing after it is produced (the parser returns at the first `Err`; the one
-  caller that swallows the error, `sourceFileOf`, does not continue the iteration either).
+  when they reach it; nothing after it is produced (the parser returns at the first `Err`).
   Since /repo ae885a6 the parser iterates `with_checks(false)`: a REPEATED key is no longer an
   error (`AttrError::Duplicated` is the only thing that switch turns off; every syntax error above
   is still reported); the tokenizer keeps repeated keys, first match / last `<line>` value wins.
